@@ -142,3 +142,7 @@ func VerifTryAccept(sesh *Session) *Stream {
 		return nil
 	}
 }
+
+// VerifForceCloseRecv closes the receive buffer of a stream directly (used by the harness only to release a
+// goroutine that a faulty build left parked in Read, so that the run can end and report it).
+func VerifForceCloseRecv(s *Stream) { _ = s.recvBuf.Close() }
